@@ -7,6 +7,7 @@ import OmbottModel.Drv.ErrorPage
 import OmbottModel.Drv.Router
 import OmbottModel.Drv.RouteUrl
 import OmbottModel.Drv.Multipart
+import OmbottModel.Drv.Body
 /-! Dispatch of a protocol line to the area handlers.  `State` holds the few models that are
 driven as state machines across lines (router, multipart feed, header store). -/
 namespace Drv
@@ -33,6 +34,7 @@ def step (st : State) (line : String) : State × String :=
     | "router" => pure? (Router.handle rest)
     | "routeurl" => pure? (RouteUrl.handle rest)
     | "mp" => pure? (Multipart.handle rest)
+    | "body" => pure? (Body.handle rest)
     | _ => (st, "bad-op")
 
 end Drv
